@@ -366,4 +366,9 @@ def r5(ctx):
     ctx.note("EllipticCurvePublicKey.fromBytes (cryptography load_der_public_key) is assumed to raise ValueError on malformed DER")
 
 
-RULES = [("C14.R1", r1), ("C14.R2", r2), ("C14.R3", r3), ("C14.R4", r4), ("C14.R5", r5)]
+def r_idioms(ctx):
+    from .common import repo_idioms
+    repo_idioms(ctx, "C14.R6", ('serializable', 'connection'))
+
+
+RULES = [("C14.R1", r1), ("C14.R2", r2), ("C14.R3", r3), ("C14.R4", r4), ("C14.R5", r5), ("C14.R6", r_idioms)]
